@@ -735,7 +735,8 @@ func (e *Exec) checkInvariants(st *State, ord int, spec *LoopSpec, kind string, 
 	for _, inv := range spec.Invariants {
 		t := e.evalSpec(st, inv)
 		name := fmt.Sprintf("%s/%s/loop%d/%s", e.fnName(), kind, ord, inv.Label)
-		e.Ctx.AddObligation(e.Fn.FullName(), kind, name, st.PC, t, e.pos(pos))
+		o := e.Ctx.AddObligation(e.Fn.FullName(), kind, name, st.PC, t, e.pos(pos))
+		o.SetParts(e.evalSpecParts(st, inv))
 	}
 }
 
